@@ -369,6 +369,11 @@ func (p *Parser) resolveDeltas(ofsDeltas, refDeltas []*ObjectHeader) error {
 		if err := p.processDelta(d); err != nil {
 			return fmt.Errorf("processing ref-delta at offset %v: %w", d.Offset, err)
 		}
+		// d's base lives outside the pack (thin pack); deltas stacked on d
+		// were not reachable from any in-pack base, resolve them now.
+		if err := visit(d); err != nil {
+			return err
+		}
 	}
 
 	for _, d := range ofsDeltas {
